@@ -76,7 +76,9 @@ int g_thrown;
 #ifndef ZMAX
 #define ZMAX 4
 #endif
+#ifndef CAP_PTR
 #define CAP_PTR (NMAX + 2)
+#endif
 #ifndef CAP_NNZ
 #define CAP_NNZ (ZMAX + 1)
 #endif
